@@ -148,23 +148,7 @@ def run(ck: Checker):
         if hit is not None:
             probs.append(f'with fail_fast on and this member failed, the emit at L{en.lineno} can deliver `{norm_text(payload)[:30]}` — a "successful" result that contains the member\'s RemoteException — instead of an EnsembleError')
     ck.ob('C04-6', f, sn.ast, not probs, '; '.join(probs) if probs else f'under fail_fast a failed member always leads to RemoteException(EnsembleError) at every reachable emit ({len(emits)} emit sites examined)')
-    # short circuit sinks
-    for f, kind in ((smod.func('EnsembleServlet._enqueue'), 'member'), (smod.func('SwitchServlet._enqueue'), 'member')):
-        cfg, sc, g = guard_cfg(ck, f, calls=())
-        n3 = 0
-        for n in cfg.nodes:
-            a = header_expr(n)
-            if a is None:
-                continue
-            for c in calls_in(a):
-                r, me = method_of(c)
-                if me == 'put' and r is not None and sc.canon(r) not in ('self._qout',) and c.args and isinstance(c.args[0], ast.Tuple) and len(c.args[0].elts) == 2 and isinstance(c.args[0].elts[1], ast.Name):
-                    clean_value(ck, 'C04-3', f, cfg, g, n, c.args[0].elts[1].id, 'input forwarded to a member servlet')
-                    n3 += 1
-                if dotted(c.func) == 'self.switch' and c.args and isinstance(c.args[0], ast.Name):
-                    clean_value(ck, 'C04-3', f, cfg, g, n, c.args[0].id, 'value handed to the user\'s switch()')
-                    n3 += 1
-        ck.need(n3 >= 1, f'{f.key}: no member put found')
+    check_routing_sinks(ck, 'C04-3')
     f = mod.func('Worker._start_single.get_input')
     cfg, sc, g = guard_cfg(ck, f)
     for n in cfg.nodes:
@@ -173,6 +157,10 @@ def run(ck: Checker):
             v = yv.elts[0] if isinstance(yv, ast.List) and len(yv.elts) == 1 else yv
             if isinstance(v, ast.Name):
                 clean_value(ck, 'C04-3', f, cfg, g, n, v.id, 'input handed to Worker.call')
+        a = header_expr(n)
+        for c in (calls_in(a) if a is not None else []):
+            if dotted(c.func) == 'preprocess' and c.args and isinstance(c.args[0], ast.Name):
+                clean_value(ck, 'C04-3', f, cfg, g, n, c.args[0].id, 'value handed to the user\'s preprocess()')
     f = mod.func('Worker._build_input_batches')
     cfg, sc, g = guard_cfg(ck, f)
     for n in cfg.nodes:
@@ -185,6 +173,12 @@ def run(ck: Checker):
                 clean_value(ck, 'C04-3', f, cfg, g, n, c.args[0].elts[1].id, 'input handed to a batch')
             if dotted(c.func) == 'preprocess' and c.args and isinstance(c.args[0], ast.Name):
                 clean_value(ck, 'C04-3', f, cfg, g, n, c.args[0].id, 'value handed to the user\'s preprocess()')
+    # ------------------------------------------------------------------ C04-7
+    ck.rule('C04-7', 'member errors keep their identity across hops: RemoteException re-wraps every exception member of every EnsembleError it is given (the guard is not narrower than `isinstance(exc, EnsembleError)` / `isinstance(member, BaseException)`)')
+    from . import c15
+
+    rinit, rprobs = c15.nested_rewrap_problems(ck)
+    ck.ob('C04-7', rinit, (rinit.node.lineno, 'EnsembleError members'), not rprobs, '; '.join(rprobs) if rprobs else 'every nested BaseException member of an EnsembleError is re-wrapped before the next hop')
     # ------------------------------------------------------------------ C04-4
     f = mod.func('Worker._start_batch')
     sc = Scope(f)
@@ -281,3 +275,27 @@ def check_wrapping(ck: Checker, rid: str, f: FuncInfo, out_q: set):
             ck.ob(rid, f, c, not bad, f'on every path `{v.id}` is a RemoteException, or proven not an Exception ({len(S)} path condition(s))' if not bad else f'`{v.id}` can reach the output queue as a bare exception object (path knowing only {bad[0]}): it loses its traceback at the next process hop and downstream stages do not short-circuit it')
     if found == 0:
         ck.ob(rid, f, (f.node.lineno, 'output puts'), False, 'no reachable put of (id, value) on the output queue: an exception value arriving at this stage cannot be short-circuited to the output')
+
+
+def check_routing_sinks(ck: Checker, rid: str):
+    """The routing threads of the compound servlets hand a value to a member stage / to the user's switch() only when it
+    is proven neither Exception nor RemoteException (decided under C04 as short-circuit, under C02 because an
+    exception raised by switch() on such a value ends the routing thread: no later request is ever answered)."""
+    smod = ck.repo.module(SERVLET)
+    # short circuit sinks
+    for f, kind in ((smod.func('EnsembleServlet._enqueue'), 'member'), (smod.func('SwitchServlet._enqueue'), 'member')):
+        cfg, sc, g = guard_cfg(ck, f, calls=())
+        n3 = 0
+        for n in cfg.nodes:
+            a = header_expr(n)
+            if a is None:
+                continue
+            for c in calls_in(a):
+                r, me = method_of(c)
+                if me == 'put' and r is not None and sc.canon(r) not in ('self._qout',) and c.args and isinstance(c.args[0], ast.Tuple) and len(c.args[0].elts) == 2 and isinstance(c.args[0].elts[1], ast.Name):
+                    clean_value(ck, rid, f, cfg, g, n, c.args[0].elts[1].id, 'input forwarded to a member servlet')
+                    n3 += 1
+                if dotted(c.func) == 'self.switch' and c.args and isinstance(c.args[0], ast.Name):
+                    clean_value(ck, rid, f, cfg, g, n, c.args[0].id, 'value handed to the user\'s switch()')
+                    n3 += 1
+        ck.need(n3 >= 1, f'{f.key}: no member put found')
